@@ -183,8 +183,14 @@ type Report struct {
 	distinct           map[string]bool
 }
 
+// Current is the report of the running property (read by the harness's global
+// deadline watchdog, which turns a hung run into a reported violation).
+var Current *Report
+
 func NewReport(prop string) *Report {
-	return &Report{Property: prop, Distribution: map[string]int{}, CaseIndex: map[string]any{}, distinct: map[string]bool{}}
+	r := &Report{Property: prop, Distribution: map[string]int{}, CaseIndex: map[string]any{}, distinct: map[string]bool{}}
+	Current = r
+	return r
 }
 
 func (r *Report) Count(kind string) { r.Distribution[kind]++ }
